@@ -50,13 +50,57 @@ def find_locks(*objs):
     return found
 
 
+class MonLock(object):
+    """delegating proxy put in place of a lock found on the client: counts its critical sections (ownership going from
+    not-held to held), so that two accesses of ONE transaction made in two different sections (the lock released and
+    taken again in between, e.g. around a back-off sleep) can be told from one uninterrupted section"""
+
+    def __init__(self, real):
+        self.real, self.depth, self.sections = real, 0, 0
+
+    def acquire(self, *a, **k):
+        got = self.real.acquire(*a, **k)
+        if got:
+            if self.depth == 0:
+                self.sections += 1
+            self.depth += 1
+        return got
+
+    def release(self):
+        self.depth -= 1
+        return self.real.release()
+
+    def __enter__(self):
+        return self.acquire()
+
+    def __exit__(self, *a):
+        self.release()
+
+    def _is_owned(self):
+        return owned(self.real)
+
+    def locked(self):
+        return owned(self.real)
+
+
+def monitor_locks(locks, *objs):
+    """replace every attribute of objs that holds one of `locks` by a MonLock around it; returns the proxies in the order of locks"""
+    mons = [MonLock(l) for l in locks]
+    for o in objs:
+        for name, val in list(vars(o).items()):
+            for l, m in zip(locks, mons):
+                if val is l:
+                    setattr(o, name, m)
+    return mons
+
+
 def owned(lock):
     if hasattr(lock, "_is_owned"):
         return lock._is_owned()
     return lock.locked()
 
 
-def make_lock(framing, retries, roe, roi, prelock=False):
+def make_lock(framing, retries, roe, roi, prelock=False, choices=(0, 2, 3, 4, 7), ntxn=2):
     ncalls = 1 + retries
 
     def lock(ch: bytes, u: bytes, v: bytes, g: bytes, st: int) -> bool:
@@ -74,7 +118,11 @@ def make_lock(framing, retries, roe, roi, prelock=False):
         assume(other != unit)
         for i in range(2 * ncalls):
             # full reply, nothing, half a reply, garbage, OSError (the remaining C13 behaviours take the same code paths)
-            assume((ch[i] == 0) | (ch[i] == 2) | (ch[i] == 3) | (ch[i] == 4) | (ch[i] == 7))
+            # (choices: the retry obligation of the quick tier narrows this to full / nothing / another unit's reply)
+            ok = ch[i] == choices[0]
+            for c in choices[1:]:
+                ok = ok | (ch[i] == c)
+            assume(ok)
         if framing == "rtu":
             assume(g[1] == 3)
             assume(g[2] <= 4)
@@ -84,9 +132,11 @@ def make_lock(framing, retries, roe, roi, prelock=False):
         if not locks:
             explain("no lock reachable from the client")
             return False
+        mons = monitor_locks(locks, cl, cl.transaction, cl.framer)
         events = []          # (event name, tuple of owned flags per lock)
+        sections = []        # per event: (transaction number, critical-section counter of every lock)
         pre = []             # connect() calls made by BaseModbusClient.execute before the transaction manager is entered
-        where = {"in_txn": False}
+        where = {"in_txn": False, "txn": 0}
 
         def note(name):
             flags = tuple(bool(owned(l)) for l in locks)
@@ -94,6 +144,7 @@ def make_lock(framing, retries, roe, roi, prelock=False):
                 pre.append((name, flags))
             else:
                 events.append((name, flags))
+                sections.append((where["txn"], tuple(m.sections for m in mons)))
         orig_execute = cl.transaction.execute
 
         def txn_execute(request):
@@ -151,12 +202,13 @@ def make_lock(framing, retries, roe, roi, prelock=False):
             cl.faults[("send", i)] = send_hook
         from pymodbus.utilities import ModbusTransactionState as MTS
         MTS.to_string = classmethod(lambda cls, state: "<state>")      # log text only (a dict lookup would realise the symbolic state)
-        for txn in range(2):
+        for txn in range(ntxn):
             req = F.ReadHoldingRegistersRequest(txn, 1)
             req.unit_id = unit
             state["tid"] = (cl.transaction.tid + 1) % 65536
             if txn == 0:
                 cl.state = st
+            where["txn"] = txn
             try:
                 cl.execute(req)             # the public entry point: BaseModbusClient.execute
             except Exception:
@@ -183,6 +235,15 @@ def make_lock(framing, retries, roe, roi, prelock=False):
                 the = idx
             elif idx != the:
                 explain("event %s guarded by a different lock", name)
+                return False
+        # one transaction = one critical section: the guarding lock is not let go between two accesses of the same call
+        first = {}
+        for (name, flags), (txn, secs) in zip(events, sections):
+            if txn not in first:
+                first[txn] = secs[the]
+            elif secs[the] != first[txn]:
+                explain("transaction %d: event %s is in critical section %d, its first access was in section %d (lock released mid-transaction)",
+                        txn, name, secs[the], first[txn])
                 return False
         return True
     return lock
@@ -282,6 +343,15 @@ def obligations(tier):
     configs = [("tcp", 0, False, False), ("rtu", 0, False, False)]
     if tier != "quick":
         configs += [("tcp", 1, True, True), ("rtu", 1, True, True), ("ascii", 0, False, False), ("tcp", 1, False, True), ("tcp", 2, True, True)]
+    # one transaction with one retry and both retry switches on, attempts limited to: full reply / nothing / another unit's
+    # reply -- the paths through the retry loop (back-off sleep included) in the quick tier
+    for framing, choices, names in (("tcp", (0, 2, 3, 4, 5, 7), "full reply / nothing / half a reply / garbage / a reply from another unit / OSError"),
+                                    ("rtu", (0, 2, 5), "full reply / nothing / a reply from another unit")):
+        out.append(Obl("lock.%s.r1.e1.i1.retry-loop" % framing, make_lock(framing, 1, True, True, choices=choices, ntxn=1), timeout=T,
+                       contracts=contracts[framing], lemmas=lem[framing],
+                       bounds="%s client, ONE client.execute() call, retries=1, retry_on_empty and retry_on_invalid on, client.state on entry symbolic: per attempt a "
+                              "symbolic choice among %s, symbolic contents; asserted as lock.*: every access under one and the same "
+                              "lock, in ONE critical section (lock not released between two accesses of the call), no lock held afterwards" % (framing, names)))
     for framing, retries, roe, roi in configs:
         out.append(Obl("lock.%s.r%d.e%d.i%d" % (framing, retries, roe, roi), make_lock(framing, retries, roe, roi), timeout=T,
                        contracts=contracts[framing], lemmas=lem[framing],
